@@ -45,10 +45,12 @@ Value& ATAN2Expression::value(Context & ctx) const
     case Type::NO_TYPE:
       break;
     case Type::INTEGER:
-      v = Value(Numeric(std::atan2((double)*a0.integer(), (double)*a1.integer())));
+      if (!a0.isNull() && !a1.isNull())
+        v = Value(Numeric(std::atan2((double)*a0.integer(), (double)*a1.integer())));
       break;
     case Type::NUMERIC:
-      v = Value(Numeric(std::atan2((double)*a0.integer(), *a1.numeric())));
+      if (!a0.isNull() && !a1.isNull())
+        v = Value(Numeric(std::atan2((double)*a0.integer(), *a1.numeric())));
       break;
     default:
       throw RuntimeError(EXC_RT_FUNC_ARG_TYPE_S, KEYWORDS[oper]);
@@ -60,10 +62,12 @@ Value& ATAN2Expression::value(Context & ctx) const
     case Type::NO_TYPE:
       break;
     case Type::INTEGER:
-      v = Value(Numeric(std::atan2(*a0.numeric(), (double)*a1.integer())));
+      if (!a0.isNull() && !a1.isNull())
+        v = Value(Numeric(std::atan2(*a0.numeric(), (double)*a1.integer())));
       break;
     case Type::NUMERIC:
-      v = Value(Numeric(std::atan2(*a0.numeric(), *a1.numeric())));
+      if (!a0.isNull() && !a1.isNull())
+        v = Value(Numeric(std::atan2(*a0.numeric(), *a1.numeric())));
       break;
     default:
       throw RuntimeError(EXC_RT_FUNC_ARG_TYPE_S, KEYWORDS[oper]);
